@@ -11,6 +11,7 @@ import AcryoVerif.Model.Bin
 import AcryoVerif.Model.Table
 import AcryoVerif.Model.Frame
 import AcryoVerif.Model.Pose
+import AcryoVerif.Model.Rigid
 
 /-! Dispatch of hand-written model operations for the line-protocol driver. -/
 namespace Model
@@ -242,6 +243,47 @@ def opPose (a : Array Rat) : String :=
     | _ => m.translate v
   showPose r
 
+def showV3 (v : V3) : String := " ".intercalate ([v.z, v.y, v.x].map Canon.canon)
+def showM3 (m : M3) : String := " ".intercalate [showV3 m.r0, showV3 m.r1, showV3 m.r2]
+
+/-- `poseHist p(3) R(9) [kind v(3) Q(9)]*` : a history of rotate / translate calls -/
+partial def runPose (m : Pose) (a : Array Rat) (k : Nat) : Pose :=
+  if k + 13 > a.size then m
+  else
+    let v := v3At a (k + 1)
+    let Q := m3At a (k + 4)
+    let m' := match (a[k]!).floor with
+      | 0 => m.translateInternal v
+      | 1 => m.rotateInternal Q
+      | 4 => m.rotateBy Q
+      | _ => m.translate v
+    runPose m' a (k + 13)
+
+def opPoseHist (a : Array Rat) : String := showPose (runPose ⟨v3At a 0, m3At a 3⟩ a 12)
+
+def opAxes (a : Array Rat) : String :=
+  let m : Pose := ⟨⟨0, 0, 0⟩, m3At a 0⟩
+  " ".intercalate [showV3 m.axisZ, showV3 m.axisY, showV3 m.axisX]
+
+def opFromAxes (a : Array Rat) : String :=
+  let u := v3At a 1
+  let w := v3At a 4
+  showM3 (match (a[0]!).floor with
+    | 0 => fromAxesZY u w
+    | 1 => fromAxesYX u w
+    | _ => fromAxesZX u w)
+
+/-- `localCoord p(3) R(9) s0 s1 s2 scale k(3)` -/
+def opLocalCoord (a : Array Rat) : String :=
+  showV3 (localCoord ⟨v3At a 0, m3At a 3⟩ (i a 12, i a 13, i a 14) a[15]! (v3At a 16))
+
+/-- `affine p(3) R(9) src(3) dst(3) o(3) inverse` -/
+def opAffine (a : Array Rat) : String :=
+  showV3 (affineApply ⟨v3At a 0, m3At a 3⟩ (v3At a 12) (v3At a 15) (v3At a 18) (a[21]! ≠ 0))
+
+def opEulerTr (a : Array Rat) : String :=
+  " ".intercalate ((translateEuler (a.toList.map fun q => Char.ofNat q.floor.toNat)).map fun c => toString c.toNat)
+
 def dispatch (name : String) (a : Array Rat) : Option String :=
   match name with
   | "prepAffine" => some (flat (opPrepAffine a))
@@ -271,6 +313,12 @@ def dispatch (name : String) (a : Array Rat) : Option String :=
   | "table" => some (opTable a)
   | "frame" => some (opFrame a)
   | "pose" => some (opPose a)
+  | "poseHist" => some (opPoseHist a)
+  | "axes" => some (opAxes a)
+  | "fromAxes" => some (opFromAxes a)
+  | "localCoord" => some (opLocalCoord a)
+  | "affine" => some (opAffine a)
+  | "eulerTr" => some (opEulerTr a)
   | _ => none
 
 end Model
